@@ -1327,7 +1327,9 @@ class Parallel(Logger):
             raise ValueError("n_jobs could not be converted to int")
         self.n_jobs = n_jobs
 
-        if require == "sharedmem" and not getattr(backend, "supports_sharedmem", False):
+        if self._backend_kwargs["require"] == "sharedmem" and not getattr(
+            backend, "supports_sharedmem", False
+        ):
             raise ValueError("Backend %s does not support shared memory" % backend)
 
         if batch_size == "auto" or isinstance(batch_size, Integral) and batch_size > 0:
